@@ -860,6 +860,33 @@ RULES = {
                 "iter . fold ( $$init , $$f )",
                 "{ let mut it__ = iter ; let mut acc__ = $$init ; loop { match it__ . next ( ) { Some ( x__ ) => { acc__ = $$f ( acc__ , x__ ) ; } None => break , } } acc__ }",
                 guard=lambda e: e["$$init"] and e["$$f"] and "," not in e["$$init"]),
+    "R51": MultiRule("R51", "bigrand (feature rand): num_integer calls on u64 -> helpers with the arithmetic definition; `vec![0u64; n]` -> helper; MODEL of the unsafe reinterpretation of the zeroed Vec<u64> as `len` u32 words (little-endian target): a separate word buffer is taken, filled and stored back, the safety precondition of from_raw_parts_mut (the words lie inside the allocation) becomes the helper's `requires`; comparisons of BigUint/BigInt references through `<` / `<=` -> `cmp` (std: PartialOrd on references compares the referents, default lt/le over partial_cmp = Some(cmp))", [
+        ("use core :: slice ;", ""),
+        ("bit_size . div_rem ( & 32 )", "__u64_div_rem ( bit_size , 32 )"),
+        ("Integer :: div_ceil ( & bit_size , & 64 )", "__u64_div_ceil ( bit_size , 64 )"),
+        ("vec ! [ 0u64 ; native_len ]", "__zeros_u64 ( native_len )"),
+        ("( rem > 0 ) as u64", "__bool_u64 ( rem > 0 )"),
+        ("unsafe { let ptr = data . as_mut_ptr ( ) as * mut u32 ; debug_assert ! ( native_len * 2 >= len ) ; let data = slice :: from_raw_parts_mut ( ptr , len ) ; gen_bits ( self , data , rem ) ; }",
+         "{ let mut words__ = __u32_view_take ( & data , len ) ; gen_bits ( self , words__ . as_mut_slice ( ) , rem ) ; __u32_view_store ( & mut data , & words__ ) ; }"),
+        ("if n < * bound {", "if ( n . cmp ( bound ) == core :: cmp :: Ordering :: Less ) {"),
+        ("assert ! ( * lbound < * ubound ) ;", "__assert ( lbound . cmp ( ubound ) == core :: cmp :: Ordering :: Less ) ;"),
+        ("assert ! ( low < high ) ;", "__assert ( low . cmp ( high ) == core :: cmp :: Ordering :: Less ) ;"),
+        ("assert ! ( low <= high ) ;", "__assert ( low . cmp ( high ) != core :: cmp :: Ordering :: Greater ) ;"),
+    ]),
+    "R52": MultiRule("R52", "bigrand: operator expressions on references in trait-method form (Rust's definition of the operators), `X.borrow()` of rand's SampleBorrow at B = &T (returns the reference itself), and `Self::new(low, high + 1u32)` passing the sum by reference (new only borrows its arguments: instance B2 = &T instead of B2 = T)", [
+        ("lbound + self . gen_biguint_below ( & ( ubound - lbound ) )", "Add :: add ( lbound , self . gen_biguint_below ( & Sub :: sub ( ubound , lbound ) ) )"),
+        ("lbound + BigInt :: from ( $$e )", "Add :: add ( lbound , BigInt :: from ( $$e ) )"),
+        ("let delta = ubound - lbound ;", "let delta = Sub :: sub ( ubound , lbound ) ;"),
+        ("len : high - low ,", "len : Sub :: sub ( high , low ) ,"),
+        ("len : ( high - low ) . into_parts ( ) . 1 ,", "len : Sub :: sub ( high , low ) . into_parts ( ) . 1 ,"),
+        ("Self :: new ( low , high + 1u32 )", "Self :: new ( low , & Add :: add ( high , 1u32 ) )"),
+        ("& self . base + rng . gen_biguint_below ( & self . len )", "Add :: add ( & self . base , rng . gen_biguint_below ( & self . len ) )"),
+        ("& self . base + BigInt :: from ( $$e )", "Add :: add ( & self . base , BigInt :: from ( $$e ) )"),
+        ("low_b . borrow ( )", "low_b"),
+        ("high_b . borrow ( )", "high_b"),
+        ("low . borrow ( )", "low"),
+        ("high . borrow ( )", "high"),
+    ]),
     "R14n": Rule("R14n", "debug_assert_ne!(..); -> (dropped)", "debug_assert_ne ! ( $$c ) ;", ""),
     "R10n": Rule("R10n", "for _ in A..E { BODY } -> { let mut i__ = A; let e__ = E; while i__ < e__ { i__ += 1; BODY } }  (std: Range yields A, .., E-1; bounds evaluated once)",
                  "for _ in $$a .. $$e { $$body }", "{ let mut i__ = $$a ; let e__ = $$e ; while i__ < e__ { i__ += 1 ; $$body } }",
@@ -1086,6 +1113,9 @@ def apply_cfg_rule(ss, log, where):
                 elif s in CLOSE:
                     depth -= 1
                     if depth == 0 and s == "}" and (j + 1 >= len(ss) or ss[j + 1] != ";") and ss[k + 1] in ("fn", "pub", "impl", "mod", "unsafe", "const"):
+                        break
+                    # block-like statements (no trailing `;`): the statement ends with its block (an `else` continues it)
+                    if depth == 0 and s == "}" and ss[k + 1] in ("for", "while", "loop", "if", "match") and (j + 1 >= len(ss) or ss[j + 1] not in (";", "else", ".")):
                         break
                 elif s == ";" and depth == 0:
                     break
@@ -1324,10 +1354,10 @@ def transplant(annot_text, new_ss):
         if tag == "insert":
             # place right after previous real token
             at = btoks[i1 - 1].b if i1 > 0 else (btoks[0].a if btoks else 0)
-            # tokens that do not end a statement continue into the next real token (`if` before a kept condition,
-            # a new operand before a kept operator): annotations standing between the two real tokens are statements
-            # of their own and must not end up inside that expression, so the new tokens go after them
-            if i1 > 0 and i1 < len(btoks) and new_ss[j2 - 1] not in (";", "}", "{"):
+            # new tokens that open a statement (`if` / `while` / `match` .. in front of a kept expression) and do not end
+            # one continue into the next real token: annotations standing between the two real tokens are statements of
+            # their own and must not end up inside that new statement's head, so the new tokens go after them
+            if i1 > 0 and i1 < len(btoks) and new_ss[j2 - 1] not in (";", "}", "{") and new_ss[j1] in ("if", "while", "for", "loop", "match", "let", "return"):
                 nxt = btoks[i1].a
                 for (x, y) in ins_spans:
                     if at <= x and y <= nxt and y > at:
